@@ -286,10 +286,22 @@ class DeleteUpsertSQL(UpsertSQL):
         return ['True'] * len(self.columns_without_pks)
 
     def build_update_values(self):
-        return [
-            '"{name}" = OLD."{name}"'.format(name=c.name)
-            for c in self.columns
-        ]
+        # The row was already written by an earlier event of this
+        # transaction: it becomes a delete version, like the object based
+        # versioning records it.
+        mod_columns = []
+        if self.use_property_mod_tracking:
+            mod_columns = [
+                '%s_mod = True' % c.name for c in self.columns_without_pks
+            ]
+        return (
+            ['%s = 2' % self.operation_type_column_name] +
+            [
+                '"{name}" = OLD."{name}"'.format(name=c.name)
+                for c in self.columns
+            ] +
+            mod_columns
+        )
 
     def build_values(self):
         return ['OLD."%s"' % c.name for c in self.columns]
